@@ -104,15 +104,17 @@ def values_for(cls, rng):
     if cls == 'Tuple':
         return [(1, 2), ('a', (1, 2))]
     if cls == 'WithSet':
-        return [{'s': set([1, 2])}, [frozenset(['a'])]]
+        return [{'s': set([1, 2])}, [frozenset(['a'])], [{'a': 1}, set([2])]]
     if cls == 'WithDatetime':
-        return [{'d': datetime.datetime(2020, 1, 2, 3, 4, 5)}, [datetime.date(2020, 1, 1)]]
+        return [{'d': datetime.datetime(2020, 1, 2, 3, 4, 5)}, [datetime.date(2020, 1, 1)], [{'a': 1}, datetime.date(2020, 1, 1), 5]]
     if cls == 'WithToDict':
         return [{'o': HasToDict()}, [HasToDict()]]
     if cls == 'WithAsDict':
         return [{'o': HasAsDict()}]
     if cls == 'WithPlainObject':
-        return [{'o': Plain()}, [object(), 1]]
+        # ... also inside values WITHOUT a tabular shape (when HTML is asked for, the table attempt fails and the JSON
+        # fallback has to cope with the unknown object like the plain JSON path does)
+        return [{'o': Plain()}, [object(), 1], [{'a': 1}, Plain()], {'rows': [{'a': Plain()}, 5]}, [[1, [Plain()]], 'x']]
     if cls == 'SetValue':
         return [set([1, 2, 3]), frozenset(['x'])]
     if cls == 'BytesInside':
@@ -254,6 +256,20 @@ def check(run):
                 o = project(v, cls, st, label, body, jsonp=(kind == 'jsonp_dev'))
                 o.update({'tid': tid, 'kind': kind, 'c': cls, 'fmt': 'absent', 'acc': 'absent', '_v': repr(v)[:200], '_vi': 0})
                 recs.append(o)
+                if type(v) in (dict, list) and cls in ('FlatMap', 'SeqScalars', 'Nested', 'EmptySeq', 'EmptyMap'):
+                    # the SAME object again after the application changed it (a module-level counter dict, a growing list):
+                    # the response is the value as it is NOW
+                    if type(v) is dict:
+                        v['changed_since_last_request'] = tid
+                    else:
+                        v.append(tid)
+                    st, label, body = fetch(app, path, 'absent', 'absent', q)
+                    tid += 1
+                    o = project(v, cls if cls not in ('EmptySeq', 'EmptyMap') else {'EmptySeq': 'SeqScalars', 'EmptyMap': 'FlatMap'}[cls],
+                                st, label, body, jsonp=(kind == 'jsonp_dev'))
+                    o.update({'tid': tid, 'kind': kind, 'c': o.get('c', cls) if False else (cls if cls not in ('EmptySeq', 'EmptyMap') else {'EmptySeq': 'SeqScalars', 'EmptyMap': 'FlatMap'}[cls]),
+                              'fmt': 'absent', 'acc': 'absent', '_v': 'same object, mutated: ' + repr(v)[:160], '_vi': 1})
+                    recs.append(o)
     acc, rej = tracecheck.validate(run, 'Render_Trace', spec('Render_Trace.tla'), cfgpath('Render_Trace.cfg'), None,
                                    [{k: v for k, v in r_.items() if not k.startswith('_')} for r_ in recs])
     run.traces += len(acc)
